@@ -33,7 +33,7 @@ def _name(rnd, i, odd):
     return base
 
 
-def gen_election(rnd, rule=None, small=False, flags=None):
+def gen_election(rnd, rule=None, small=False, flags=None, large=False):
     """an abstract valid election.
 
     rule      : influences which features are offered (equal ranks for meek/warren,
@@ -49,7 +49,9 @@ def gen_election(rnd, rule=None, small=False, flags=None):
         return f[name]
 
     r = rnd.random()
-    if small:
+    if large:
+        n = rnd.randint(9, 14)
+    elif small:
         n = rnd.choice((2, 3, 3, 4, 4, 5))
     elif r < 0.03:
         n = 12
@@ -98,7 +100,7 @@ def gen_election(rnd, rule=None, small=False, flags=None):
     # ballots
     equal_ok = rule in ('meek', 'warren') and flag('equal', 0.3)
     tie_heavy = flag('tie_heavy', 0.3)
-    nlines = rnd.randint(2, 8 if small else 14)
+    nlines = rnd.randint(12, 30) if large else rnd.randint(2, 8 if small else 14)
     pool = []
     if tie_heavy:
         for _ in range(rnd.randint(1, 3)):
@@ -339,11 +341,11 @@ def gen_options(rnd, rule=None, flags=None, n=4, slow_ok=False):
     return o
 
 
-def gen_case(rnd, rule=None, small=False, slow_ok=False, flags=None):
+def gen_case(rnd, rule=None, small=False, slow_ok=False, flags=None, large=False):
     "(abstract election, options, blt text)"
     if rule is None:
         rule = rnd.choice(RULES)
-    e = gen_election(rnd, rule=rule, small=small, flags=flags)
+    e = gen_election(rnd, rule=rule, small=small, flags=flags, large=large)
     o = gen_options(rnd, rule=rule, flags=flags, n=e['n'], slow_ok=slow_ok)
     if o.get('arithmetic') == 'rational' and rule in ('meek', 'warren'):
         # keep rational Meek tiny: it is exponentially slow
